@@ -289,6 +289,24 @@ def let_expr(body, name, env, rmap):
     return e, m.start()
 
 
+def translate_version(repo):
+    """`>=` on Version is derive(PartialOrd): the declaration order of the variants"""
+    src = nocomment(open(os.path.join(repo, 'src', 'protocol.rs')).read())
+    m = re.search(r'#\[derive\(([^)]*)\)\]\s*pub enum Version\s*\{([^}]*)\}', src)
+    if not m:
+        raise TranslateError('`#[derive(..)] pub enum Version { .. }` not found in protocol.rs')
+    if 'PartialOrd' not in [x.strip() for x in m.group(1).split(',')]:
+        raise TranslateError('Version does not derive PartialOrd: its `>=` is not the declaration order')
+    if re.search(r'impl\s+(PartialOrd|Ord)\s+for\s+Version', src):
+        raise TranslateError('hand-written ordering on Version')
+    body = re.sub(r'#\[[^\]]*\]', '', m.group(2))
+    variants = [x.strip() for x in body.split(',') if x.strip()]
+    for x in variants:
+        if not re.fullmatch(r'V[0-5]', x):
+            raise TranslateError('variant %r of Version is not one of V0..V5 without a discriminant' % x)
+    return 'Definition src_version_order : list version := [%s].\n' % '; '.join(variants)
+
+
 def translate_generate(repo, rmap):
     src = open(os.path.join(repo, 'src', 'generator', 'core.rs')).read()
     body = strip_cfg(fn_body(src, 'generate_internal'))
@@ -440,7 +458,7 @@ def main():
     repo, outdir = sys.argv[1], sys.argv[2]
     rmap = rust_to_cp(cpython_names())
     try:
-        text = HEADER + translate_generate(repo, rmap) + '\n' + translate_cleanup(repo, rmap)
+        text = HEADER + translate_version(repo) + '\n' + translate_generate(repo, rmap) + '\n' + translate_cleanup(repo, rmap)
     except (TranslateError, ValueError, IndexError, KeyError) as e:
         # ValueError & co.: a `.index()` / lookup that found nothing - a source shape outside the subset, too
         print('TRANSLATE-ERROR SrcDrv.v: %s: %s' % (type(e).__name__, e))
